@@ -479,6 +479,12 @@ func jobC19(c *rt.Ctx) {
 	// ---- signed radix-16 recoding ------------------------------------------------------------
 	checkW4 := func(class string, x *Bignum256, val *big.Int, desc string) {
 		var r [64]int8
+		w4calls++
+		if w4calls%2 == 1 {
+			// a reused digit array (holds the digits of 2^255 - 1)
+			all := fromIntRaw(new(big.Int).Sub(pow2(255), big.NewInt(1)))
+			ContractWindow4(&r, &all)
+		}
 		ContractWindow4(&r, x)
 		c.Step(1)
 		c.Class(class)
@@ -532,6 +538,14 @@ func jobC19(c *rt.Ctx) {
 		}
 		for _, w := range []uint{5, 7} {
 			var r [256]int8
+			if i%2 == 1 {
+				// the digit array is reused: it still holds the recoding of another scalar (L - 1 or 2^252 - 1)
+				hi := fromInt(new(big.Int).Sub(L, big.NewInt(1)))
+				if i%4 == 3 {
+					hi = fromInt(new(big.Int).Sub(pow2(252), big.NewInt(1)))
+				}
+				ContractSlidingWindow(&r, &hi, w)
+			}
 			ContractSlidingWindow(&r, &x, w)
 			c.Step(1)
 			c.Class(fmt.Sprintf("sliding%d", w))
@@ -565,4 +579,12 @@ func atAlign(b []byte) []byte {
 	}
 	copy(buf[off:], b)
 	return buf[off : off+len(b)]
+}
+
+var w4calls int
+
+func fromIntRaw(v *big.Int) Bignum256 {
+	var x Bignum256
+	ExpandRaw(&x, ref.ToLE(v, 32))
+	return x
 }
